@@ -266,6 +266,9 @@ pub struct SinkLog {
     pub flushes: usize,
     pub shutdowns: usize,
     pub writes_after_shutdown: usize,
+    /// bytes accepted by successive Ready write polls, and the buffer lengths they were offered
+    pub transfers: Vec<usize>,
+    pub offered: Vec<usize>,
 }
 
 /// In-memory sink: partial writes, Pending on write / flush / shutdown polls.
@@ -298,6 +301,10 @@ impl AsyncWrite for AdvWriter {
                     log.writes_after_shutdown += 1;
                 }
                 log.bytes.extend_from_slice(&buf[..n]);
+                if log.transfers.len() < 1 << 16 {
+                    log.transfers.push(n);
+                    log.offered.push(buf.len());
+                }
                 drop(log);
                 self.dirty = true;
                 Poll::Ready(Ok(n))
